@@ -71,6 +71,15 @@ MUTANTS = [
      "if not dominates_one and hofer.fitness > ind.fitness:"),
     ("evict_best", "break",
      "                        self.remove(-1)", "                        self.remove(0)"),
+    ("pf_remove_as_one_slice", "break",
+     "            for i in reversed(to_remove):       # Remove the dominated hofer\n                self.remove(i)\n",
+     "            if to_remove:                       # 'the front is sorted, dominated members are adjacent'\n"
+     "                lo, hi, n = to_remove[0], to_remove[-1], len(self)\n"
+     "                del self.items[lo:hi + 1]\n"
+     "                del self.keys[n - 1 - hi:n - lo]\n"),
+    ("similar_scan_equal_fitness_only", "break",
+     "                    if self.similar(ind, hofer):\n                        break",
+     "                    if hofer.fitness == ind.fitness and self.similar(ind, hofer):\n                        break"),
     # harmless refactors: must NOT give a VIOLATION
     ("H_no_continue", "harmless",
      "                self.insert(population[0])\n                continue\n",
